@@ -62,10 +62,10 @@ func c19buckets(c *ctx) {
 	o, r := c.o, c.r
 	rates := []int64{1, 7, 100, 999, 1000, 1024, 4096, 16384, 16401, 20480, 65536, 100_000, 123_457, 1_000_000, 10_000_000,
 		30_000_000, 100_000_000, 250_000_000, 300_000_000, 1_000_000_000, 3_000_000_000}
-	n := 60
+	n := 300
 	steps := 40
 	if c.thorough() {
-		n, steps = 700, 80
+		n, steps = 3000, 80
 	}
 	for i := 0; i < n; i++ {
 		rates = append(rates, c19logRate(r, 1, 5e9))
@@ -148,9 +148,9 @@ func c19buckets(c *ctx) {
 
 func c19(c *ctx) {
 	c19buckets(c)
-	nb := 6
+	nb := 10
 	if c.thorough() {
-		nb = 48
+		nb = 96
 	}
 	type res struct {
 		path string
@@ -777,9 +777,9 @@ func c19sub(c *ctx) {
 		batch, _ = strconv.Atoi(c.args[0])
 	}
 	r := &rng{c.seed*0x9E3779B97F4A7C15 + uint64(batch)*0x1000193 + 77}
-	ncases := 7
+	ncases := 8
 	if c.thorough() {
-		ncases = 10
+		ncases = 12
 	}
 	synctest.Run(func() {
 		for i := 0; i < ncases; i++ {
@@ -792,6 +792,11 @@ func c19sub(c *ctx) {
 			cs := c19genCase(r, kind, c.thorough())
 			key := fmt.Sprintf("b%d.c%d %s rx=%d tx=%d sess=%d conn=%d str=%d unordered=%v %s", batch, i, kind, cs.rxRate, cs.txRate, cs.nsess, cs.nconn, cs.nstream, cs.unordered, c14methods[cs.method])
 			w, rxP, txP := c19run(c, r, cs)
+			vt := c19monitor(c, "tx", cs, cs.txRate, txP, w.txEv, key)
+			vr := c19monitor(c, "rx", cs, cs.rxRate, rxP, w.rxEv, key)
+			if kind == "backlog" {
+				c19backlog(c, cs, txP, w.txEv, w.txStart, key)
+			}
 			for _, pp := range []struct {
 				rate int64
 				p    mux.Verif19Params
@@ -803,11 +808,6 @@ func c19sub(c *ctx) {
 					c.o.V("C19 constructor-rate-outside-1%: the limiter's real rate differs from the configured rate by more than 1 %",
 						map[string]any{"case": key, "rate": pp.rate, "quantum": pp.p.Q, "fillInterval_ns": pp.p.FI})
 				}
-			}
-			vt := c19monitor(c, "tx", cs, cs.txRate, txP, w.txEv, key)
-			vr := c19monitor(c, "rx", cs, cs.rxRate, rxP, w.rxEv, key)
-			if kind == "backlog" {
-				c19backlog(c, cs, txP, w.txEv, w.txStart, key)
 			}
 			c.o.stat("session_cases", 1)
 			c.o.stat("session_tx_events", vt.events)
